@@ -97,7 +97,8 @@ TKill == /\ Is("kill") /\ UNCHANGED <<vars, kind, fs, sizes, xd>>
                        \cup Flag((~Ev.failed /\ Ev.how \in {"step", "fsize"}) => 1 \in ObsIds(Ev.dir), "StoreChunk succeeded but the chunk is not in the store")
 TXkill == /\ Is("xkill") /\ UNCHANGED <<vars, kind, fs, sizes, xd>>
           /\ bad' = bad \cup Flag(Ev.dest \in {"prev", "new"}, "extract was killed and the destination is neither its previous state nor the complete blob")
-                        \cup Flag(Ev.survived => Ev.dest = "new", "extract finished but the destination is not the blob")
+                        \* (a destination name too long for a temporary file next to it: the command may refuse, it must not fall back to writing in place)
+                        \cup Flag(Ev.survived => Ev.dest \in (IF Ev.longname THEN {"new", "prev"} ELSE {"new"}), "extract finished but the destination is not the blob")
 TInplace == /\ Is("inplace") /\ UNCHANGED <<vars, kind, fs, sizes, xd>>
             /\ LET e == Ev
                    invalidIds == {e.ids[c] : c \in {d \in 1..Len(e.ids) : \A i \in 1..Len(e.valid) : e.valid[i] # d}}
